@@ -92,6 +92,12 @@ MUTANTS = [
         (C, "        _MODULE_DEPENDS[path] = set([path])", "        _MODULE_DEPENDS.setdefault(path, set([path]))"),
         (C, "            _MODULE_DEPENDS[path].update(_find_sources(path, c_sources))",
          "            if len(_MODULE_DEPENDS[path]) == 1:\n                _MODULE_DEPENDS[path].update(_find_sources(path, c_sources))")]),
+    ("c17_reload_on_top_of_old_namespace", "C17", 1, [
+        (C, "            exec(code, module.__dict__)",
+         "            module.__dict__.update((k, v) for k, v in _PREVIOUS.get(path, {}).items() if not k.startswith('__'))\n"
+         "            exec(code, module.__dict__)\n"
+         "            _PREVIOUS[path] = dict(module.__dict__)"),
+        (C, "_MODULE_CACHE = {}", "_PREVIOUS = {}\n_MODULE_CACHE = {}")]),
     ("c17_benign_template_ge", "C17", 0, [(GEN, "mtime > _template_cache[filename][0]", "mtime >= _template_cache[filename][0]")]),
     ("c17_benign_always_reload", "C17", 0, [(C, "    return any(cache_times.get(p, None) != os.path.getmtime(p) for p in depends)", "    return True")]),
     ("c11_no_lock", "C11", 1, [(S, '''        with calculation_lock:
